@@ -24,27 +24,58 @@ def str (t : Text) : String := String.ofList t
 
 def Package.part? (p : Package) (name : String) : Option Part := p.find? (·.name = name)
 
-/-! ## paths and relationships -/
+/-! ## paths and relationships
 
-def splitPath (s : String) : List String := (s.splitOn "/").filter (· ≠ "")
+  Part names are taken apart on their CHARACTERS (`String.toList`), with structurally recursive functions, so
+  that the path rules below can be reasoned about for symbolic names (`xl/worksheets/sheetK.xml` for every K):
+  the library's `String.splitOn` is defined by recursion on byte positions and does not unfold.  The rules are
+  those of Part 2: segments are separated by `/`, empty segments are dropped, `.` and `..` are resolved
+  against the directory of the base part (§8.3), the relationships part of `a/b` is `a/_rels/b.rels` (§8.5). -/
+
+/-- the pieces of `l` between occurrences of `c`: first piece, remaining pieces -/
+def splitGo (c : Char) : List Char → List Char × List (List Char)
+  | [] => ([], [])
+  | x :: r => let p := splitGo c r; if x = c then ([], p.1 :: p.2) else (x :: p.1, p.2)
+
+/-- `"a/b//c"` at `/` is `a`, `b`, the empty piece, `c`; the empty text is one empty piece -/
+def splitOnChar (c : Char) (l : List Char) : List (List Char) := (splitGo c l).1 :: (splitGo c l).2
+
+/-- the non-empty segments of a path -/
+def segsOf (l : List Char) : List (List Char) := (splitOnChar '/' l).filter (· ≠ [])
+
+def joinSegs (segs : List (List Char)) : List Char := ['/'].intercalate segs
+
+def splitPath (s : String) : List String := (segsOf s.toList).map String.ofList
+
+def resolveSegs : List (List Char) → List (List Char) → List (List Char)
+  | acc, [] => acc
+  | acc, x :: r =>
+    if x = ['.', '.'] then resolveSegs acc.dropLast r
+    else if x = ['.'] then resolveSegs acc r
+    else resolveSegs (acc ++ [x]) r
+
+def resolveTargetL (base target : List Char) : List Char :=
+  if target.head? = some '/' then joinSegs (segsOf target)
+  else joinSegs (resolveSegs (segsOf base).dropLast (segsOf target))
 
 /-- resolve `target` relative to the directory of `base` (Part 2 §8.3: relative references) -/
-def resolveTarget (base target : String) : String :=
-  if target.startsWith "/" then "/".intercalate (splitPath target)
-  else
-    let dir := (splitPath base).dropLast
-    let rec go (acc : List String) : List String → List String
-      | [] => acc
-      | ".." :: r => go acc.dropLast r
-      | "." :: r => go acc r
-      | x :: r => go (acc ++ [x]) r
-    "/".intercalate (go dir (splitPath target))
+def resolveTarget (base target : String) : String := String.ofList (resolveTargetL base.toList target.toList)
 
-def relsNameOf (part : String) : String :=
-  let segs := splitPath part
-  match segs.reverse with
-  | [] => "_rels/.rels"
-  | f :: d => "/".intercalate (d.reverse ++ ["_rels", f ++ ".rels"])
+def relsNameOfL (part : List Char) : List Char :=
+  match (segsOf part).reverse with
+  | [] => ['_', 'r', 'e', 'l', 's', '/', '.', 'r', 'e', 'l', 's']
+  | f :: d => joinSegs (d.reverse ++ [['_', 'r', 'e', 'l', 's'], f ++ ['.', 'r', 'e', 'l', 's']])
+
+def relsNameOf (part : String) : String := String.ofList (relsNameOfL part.toList)
+
+/-- is this the name of a relationships part (`….rels`)? -/
+def isRelsNameL (name : List Char) : Bool := ['.', 'r', 'e', 'l', 's'].isSuffixOf name
+
+/-- the source part of the relationships part `a/_rels/b.rels` is `a/b` (of `_rels/.rels`: the package, ``) -/
+def relsSourceL (name : List Char) : List Char :=
+  match (segsOf name).reverse with
+  | f :: _ :: d => joinSegs (d.reverse ++ [f.take (f.length - 5)])
+  | _ => []
 
 structure Rel where
   id : String
@@ -64,7 +95,9 @@ def relsOf (p : Package) (part : String) : List Rel :=
 
 /-! ## content types -/
 
-def extOf (name : String) : String := ((name.splitOn ".").getLast?).getD ""
+def extOfL (name : List Char) : List Char := ((splitOnChar '.' name).getLast?).getD []
+
+def extOf (name : String) : String := String.ofList (extOfL name.toList)
 
 def contentTypeOf (p : Package) (name : String) : Option String :=
   match (p.part? "[Content_Types].xml").bind (·.xml) with
@@ -417,12 +450,9 @@ def decode (p : Package) : Option BookV × List String :=
   let e0b := p.filterMap fun part => if part.isXml ∧ part.xml.isNone then some s!"part {part.name} is not well-formed XML" else none
   -- relationship parts: unique ids, internal targets exist
   let e0c := p.flatMap fun part =>
-    if part.name.endsWith ".rels" then
+    if isRelsNameL part.name.toList then
       -- the source part of `a/_rels/b.rels` is `a/b`
-      let segs := splitPath part.name
-      let src := match segs.reverse with
-        | f :: _ :: d => "/".intercalate (d.reverse ++ [(f.dropEnd 5).toString])
-        | _ => ""
+      let src := String.ofList (relsSourceL part.name.toList)
       let rs := relsOf p src
       let ids := rs.map (·.id)
       (if ids.eraseDups.length = ids.length then [] else [s!"{part.name}: duplicate relationship ids"]) ++
